@@ -547,3 +547,25 @@ def c09_13(ctx, r):
     from .c11 import c11_7
 
     c11_7(ctx, r)
+
+
+@rule(P, "C09.14", "T6", "the job table is written only by the operations that keep the counters in step with it", min_obligations=4)
+def c09_14(ctx, r):
+    """job_status.json changes together with the counters in cluster_config.json: in the status update, in a batch's own completion, in the
+    resubmission reset (all three update both under one hold) and in the explicit public serialize_jobs().  A write of the in-memory job table
+    from anywhere else - the role release in a `finally`, say - persists whatever a failed round left half-applied (jobs set DONE by the
+    cancel scan, blocker sets shrunk) without the counter updates that belong to it."""
+    sj = ctx.fn("Cluster._serialize_jobs", "C09.14")
+    allowed = {"Cluster._complete_hpc_job_id", "Cluster._prepare_for_resubmission", "Cluster._update_job_status", "Cluster.serialize_jobs", "Cluster.create"}
+    n = 0
+    for s in ctx.cg.call_sites_of(sj.qual):
+        n += 1
+        r.check(s.fn.short in allowed, f"{s.fn.short} may write the job table", key_of(s.fn, "writes job_status.json"), s.loc,
+                f"{s.fn.short} writes the in-memory job table to job_status.json; only {sorted(allowed)} may (each of them updates the counters in the same hold): states and blocker sets a failed round changed in "
+                "memory reach the disk without their counters", "completed equals the number of jobs marked done, submitted equals the number marked submitted or done")
+    if n < 3:
+        raise AnalysisError("C09.14", f"{n} callers of Cluster._serialize_jobs")
+    pub = ctx.fn("Cluster.serialize_jobs", "C09.14")
+    for s in ctx.cg.call_sites_of(pub.qual):
+        r.check(s.fn.short in ("Cluster.create",), f"{s.fn.short} calls the public serialize_jobs", key_of(s.fn, "calls serialize_jobs"), s.loc, f"{s.fn.short} writes the job table through Cluster.serialize_jobs()",
+                "completed equals the number of jobs marked done")
